@@ -13,7 +13,9 @@ defects of the pinned code that made C01 false (`merge_by_typename_counterexampl
 `alias_named_typename_counterexample` — §9-c, repaired in 72cec20), each paired with the proof that the repaired model
 admits the response, and `alias_equals_key_counterexample` / `alias_equals_key_repaired_admits` (the defect the refinement
 proof itself found — an alias equal to the field's own name was typed apart from the unaliased selections of the field —
-repaired in /repo dda35cd).  What K/O still carry is listed in the block at the end.
+repaired in /repo dda35cd).  What K/O still carry is listed in the block at the end; the second stage
+(`Props/C01Closed.lean`) discharges the hypotheses `Hyp`, the fuel bounds and the decidable checks by composition with
+C10 / C03 / C08.
 -/
 import NitroVerif.Lemmas.OpTypes
 import NitroVerif.Lemmas.OpTypesDen
@@ -388,21 +390,24 @@ example : fieldDepthB W.ctx.S 1 = true ∧ parentsOkB W.ctx.S "Query" = true ∧
   decide
 
 /-
-OPEN — carried by K/O only (nothing of the refinement statement itself)
+OPEN — carried by K/O only (nothing of the refinement statement itself).  The SECOND STAGE, `Props/C01Closed.lean`,
+discharges most of what this block used to list; what is left after it is in the block at the end of that file.
 
   * that the Lean model IS the code (K: tree against tree on the real emitted text, panics included);
   * that the hand-written reading of the emitted TypeScript (Ts/Sem.lean, Ts/SelSem.lean) is TypeScript's;
-  * the hypotheses `Hyp` about the REAL schema declaration file (C10's model: every object type's declaration lists
-    `__typename` and exactly its fields, a leaf type's declaration admits exactly the leaf's values) — the O stream tests
-    membership against the real emitted files;
-  * `impl_no_panic` for whole documents with the fuels the model is run with (`fuelFor`, `mfuelFor`): the theorem above is
-    per selection set and per (fuel, mfuel).  Its fuel hypotheses are sufficient, not necessary: `eszL` counts the body
-    of a fragment once per spread, the code's walks enter it once; that `2·docSize + 4` / `docSize + 64` always suffice on
-    valid documents (`D ≤ docSize + 1`, a walk of at most `docSize` steps, `(K + 1)·(G + 1) ≤ docSize + 64` — the last
-    one is NOT true of schemas with very deep list types) is not proved; K never met `outOfFuel`.
+  * the hypotheses `Hyp` about the schema declaration file: PROVED for the file the MODEL of the schema printer emits
+    (`C01Closed.hyp_of_schemaFile`, from C10's closed forms; side conditions `DocOK`, `CfgOk`), so `C01_end_to_end` has no
+    hypothesis about the declaration file; that C10's model is the real schema printer is C10's K stream, and the O stream
+    here keeps testing membership against the REAL emitted files;
+  * `impl_no_panic` for whole documents with the fuels the model is run with (`fuelFor`, `mfuelFor`): PROVED
+    (`C01Closed.resultTree_ok`) for every accepted, coherent document under the explicit wrapper bound
+    `(Dn + 1)·(G + 1) ≤ docSize D + 64` — `D ≤ docSize` and the `docSize`-step walk of `get_boolean_variables` are now
+    theorems for all documents (`accepted_document_fits_its_size`, `Lemmas/OpTypesClosedBoolVars.lean`); the wrapper bound
+    is sufficient, not necessary, and cannot be dropped (`C01Closed.wrapper_bound_witness`: 70 list markers);
+    its decidable checks follow from `checkOp S D = []` (`C01Closed.accepted_document_passes_checks`);
   * ⊇ needs its value hypothesis (`C02.repeated_key_counterexample`: a record that lists a key twice); not kernel-checked:
     an interface without implementing object type (its member type `never` is turned into "key absent" by the reading of
-    `__SelectionSet`; excluded by `Hyp.inhabited`) — see design-notes/C01.md "Wave 3".
+    `__SelectionSet`; excluded by `Hyp.inhabited` / `CfgOk.inhabited`) — see design-notes/C01.md "Wave 3".
 -/
 
 end NitroVerif.Props.C01
